@@ -143,12 +143,19 @@ def r2_topological_sort(ctx: Context) -> None:
     v = visit.args.args[0].arg
     g = cfgmod.build(visit)
     marks_assign = [a for a in ast.walk(fn) if isinstance(a, ast.Assign) and isinstance(a.value, ast.DictComp)]
-    if not marks_assign:
+    from_keys = [a for a in ast.walk(fn) if isinstance(a, ast.Assign) and isinstance(a.value, ast.Call) and norm(a.value.func) == "dict.fromkeys"
+                 and len(a.value.args) == 2 and isinstance(a.value.args[1], ast.Constant)]
+    if marks_assign:
+        marks_iter, init_mark = marks_assign[0].value.generators[0].iter, norm(marks_assign[0].value.value)
+    elif from_keys:
+        # dict.fromkeys(nodes, 'Unmarked'): the same table (the initial mark is an immutable constant)
+        marks_assign = from_keys
+        marks_iter, init_mark = from_keys[0].value.args[0], norm(from_keys[0].value.args[1])
+    else:
         raise AnalysisError("topological_sort: marks dictionary not found")
     marks = marks_assign[0].targets[0].id
-    ctx.check("self.get_nodes()" in norm(marks_assign[0].value.generators[0].iter), "C17.R2", "Graph.topological_sort|marks cover every node",
+    ctx.check("self.get_nodes()" in norm(marks_iter), "C17.R2", "Graph.topological_sort|marks cover every node",
               loc(marks_assign[0]), "all nodes", "the mark table does not cover all nodes")
-    init_mark = norm(marks_assign[0].value.value)
     # cycle detection
     temp_tests = [t for t in g.nodes if t.kind == "test" and isinstance(t.ast, ast.Compare) and norm(t.ast.left) == f"{marks}[{v}]"
                   and isinstance(t.ast.ops[0], ast.Eq)]
@@ -188,6 +195,10 @@ def r2_topological_sort(ctx: Context) -> None:
     rets = [r for r in ast.walk(fn) if isinstance(r, ast.Return) and enclosing_function(r) is fn]
     lst = norm(apps[0].func.value)
     ok = len(rets) == 1 and (norm(rets[0].value) == f"{lst}[::-1]" or norm(rets[0].value) in (f"list(reversed({lst}))",))
+    if len(rets) == 1 and not ok and norm(rets[0].value) == lst and rets[0] in fn.body and fn.body.index(rets[0]) > 0:
+        # the function's own list reversed in place right before it is returned
+        prev = fn.body[fn.body.index(rets[0]) - 1]
+        ok = isinstance(prev, ast.Expr) and norm(prev.value) == f"{lst}.reverse()" and len(calls_in(fn, "reverse")) == 1
     ctx.check(ok, "C17.R2", "Graph.topological_sort|returns the reversed post-order", loc(rets[0]) if rets else loc(fn), "reversed",
               f"returns `{norm(rets[0].value) if rets else '?'}`: parents would come after their children")
     # outer driver visits every unmarked node
@@ -225,11 +236,27 @@ def r3_longest_path(ctx: Context) -> None:
     if len(ifs) != 1:
         raise AnalysisError("get_longest_path: relaxation test not found")
     t = ifs[0].test
+    relax_body = ifs[0].body
+    if len(ifs[0].body) == 1 and isinstance(ifs[0].body[0], ast.Continue) and not ifs[0].orelse:
+        # guard clause: `if not better: continue` followed by the update
+        t = ast.UnaryOp(op=ast.Not(), operand=t)
+        relax_body = inner[0].body[inner[0].body.index(ifs[0]) + 1:]
+    # a length looked up once per node (`length_to_node = lengths[node]` in front of the loop over the children) stands for that lookup
+    hoisted = {a.targets[0].id: a.value for a in loops[0].body[:loops[0].body.index(inner[0])]
+               if isinstance(a, ast.Assign) and len(a.targets) == 1 and isinstance(a.targets[0], ast.Name)
+               and sum(1 for x in ast.walk(fn) if isinstance(x, ast.Name) and x.id == a.targets[0].id and isinstance(x.ctx, ast.Store)) == 1}
+
+    def unhoist(e: ast.AST) -> ast.AST:
+        class _S(ast.NodeTransformer):
+            def visit_Name(self, n):
+                return ast.parse(ast.unparse(hoisted[n.id]), mode="eval").body if isinstance(n.ctx, ast.Load) and n.id in hoisted else n
+        return ast.fix_missing_locations(_S().visit(ast.parse(ast.unparse(e), mode="eval").body))
+    t = ast.copy_location(unhoist(t), ifs[0].test)
     L = None
-    for a in ifs[0].body:
+    for a in relax_body:
         if isinstance(a, ast.Assign) and isinstance(a.targets[0], ast.Subscript) and norm(a.targets[0].slice) == child and "predecessor" not in norm(a.targets[0].value):
             L = norm(a.targets[0].value)
-            newv = a.value
+            newv = unhoist(a.value)
     if L is None:
         raise AnalysisError("get_longest_path: length update not found")
     cand = lin.lin_of(ast.parse(f"{L}[{node}] + weights({child})", mode="eval").body)
@@ -240,7 +267,7 @@ def r3_longest_path(ctx: Context) -> None:
     w_lt = lin.formula(ast.parse(f"{L}[{child}] < {L}[{node}] + weights({child})", mode="eval").body, integer=False)
     ctx.check(lin.equivalent(f, w_le) or lin.equivalent(f, w_lt), "C17.R3", "Graph.get_longest_path|update when the path through node is longer", loc(t),
               norm(t)[:70], f"relaxation test is `{norm(t)[:80]}`: shorter paths can overwrite longer ones")
-    preds = [a for a in ifs[0].body if isinstance(a, ast.Assign) and isinstance(a.targets[0], ast.Subscript) and "predecessor" in norm(a.targets[0].value)]
+    preds = [a for a in relax_body if isinstance(a, ast.Assign) and isinstance(a.targets[0], ast.Subscript) and "predecessor" in norm(a.targets[0].value)]
     ok = len(preds) == 1 and norm(preds[0].targets[0].slice) == child and norm(preds[0].value) == node
     ctx.check(ok, "C17.R3", "Graph.get_longest_path|predecessor recorded in the same branch as the length", loc(ifs[0]), "predecessor[child] = node",
               "the back-pointer is not updated together with the length: the reconstructed path does not match the length")
